@@ -8,6 +8,7 @@
  *             I<num>:<val> coap_insert_option, U<num>:<val> coap_update_option, R<num> coap_remove_option,
  *             K<val> coap_update_token, D<val> coap_add_data
  *     <val>/<wire> = hex, `-` (empty) or `*<len>*<seed>` (byte i = (seed + 7 i + 13 (i / 256)) mod 256)
+ *   dupb / dupe: see the comment above dup_and_finish() below
  *   output: [edit: start=<used_size>.<fnv32(buffer)>] steps=<rc>.<used_size>.<fnv32(buffer)>,… hdr=<n> bytes=<D> built=<accessor dump> reparse=<dump|rej>
  *           (byte strings longer than 48 bytes as #<len>.<fnv32>.<first 8>..<last 8>)
  */
@@ -170,30 +171,39 @@ static int do_call(coap_pdu_t *pdu, char *op, long *rc) {
   return 1;
 }
 
-/* runs the calls on pdu, then serialises for proto and re-parses the bytes */
-static void run_ops(coap_proto_t proto, coap_pdu_t *pdu, char *ops) {
-  int first = 1;
-  size_t hdr;
-  OUT = stdout;
-  /* validate the syntax of the whole script first so that nothing is printed for a bad line */
+/* syntax of a whole script (so that nothing is printed for a bad line) */
+static int ops_ok(const char *ops) {
+  int ok = 1;
   if (strcmp(ops, "-")) {
     char *copy = strdup(ops), *sv = NULL;
     for (char *op = strtok_r(copy, ";", &sv); op; op = strtok_r(NULL, ";", &sv)) {
-      if (!strchr("TKDOIUR", op[0]) || !op[0]) { free(copy); printf("bad-op"); return; }
+      if (!strchr("TKDOIUR", op[0]) || !op[0]) { ok = 0; break; }
     }
     free(copy);
   }
-  printf("steps=");
+  return ok;
+}
+
+/* runs the calls on pdu, printing `<label>=<rc>.<used_size>.<fnv32>,…`; 0 = a call could not be read (bad-op printed) */
+static int run_calls(coap_pdu_t *pdu, char *ops, const char *label) {
+  int first = 1;
+  printf("%s=", label);
   if (strcmp(ops, "-")) {
     char *sv = NULL;
     for (char *op = strtok_r(ops, ";", &sv); op; op = strtok_r(NULL, ";", &sv)) {
       long rc = -1;
-      if (!do_call(pdu, op, &rc)) { printf("%sbad-op", first ? "" : ","); return; }
+      if (!do_call(pdu, op, &rc)) { printf("%sbad-op", first ? "" : ","); return 0; }
       printf("%s%ld.%zu.%08x", first ? "" : ",", rc, pdu->used_size, fnv32(pdu->token, pdu->used_size));
       first = 0;
     }
   }
   if (first) fputc('-', stdout);
+  return 1;
+}
+
+/* accessor dump, serialisation for proto, re-parse of the bytes */
+static void finish(coap_proto_t proto, coap_pdu_t *pdu) {
+  size_t hdr;
   /* accessor dump of the PDU as built, before the header is encoded */
   {
     /* printed after hdr/bytes, so buffer it: dump now into a memory stream */
@@ -225,6 +235,14 @@ static void run_ops(coap_proto_t proto, coap_pdu_t *pdu, char *ops) {
     coap_delete_pdu(rp);
     free(wire);
   }
+}
+
+/* runs the calls on pdu, then serialises for proto and re-parses the bytes */
+static void run_ops(coap_proto_t proto, coap_pdu_t *pdu, char *ops) {
+  OUT = stdout;
+  if (!ops_ok(ops)) { printf("bad-op"); return; }
+  if (!run_calls(pdu, ops, "steps")) return;
+  finish(proto, pdu);
 }
 
 static int get_num(const char *s, unsigned long *out) {
@@ -266,9 +284,124 @@ static void do_edit(char **w) {
   free(wire);
 }
 
+/* ---- duplicate (C04): coap_pdu_duplicate() of the PDU reached by <ops1>, then <ops2> on the copy ----
+ *   dupb <proto> <maxsize> <type> <code> <mid> <ops1> <smax> <newmid> <tok> <flt> <ops2>
+ *   dupe <proto> <maxsize> <wire> <ops1> <smax> <newmid> <tok> <flt> <ops2>
+ *     <smax>   what coap_session_max_pdu_size_lkd(session) returns (the session's mtu is set to smax + 4; udp session)
+ *     <newmid> what coap_new_message_id_lkd(session) returns (tx_mid is set to newmid - 1)
+ *     <tok>    <val>: token of the copy
+ *     <flt>    N = drop_options NULL (memcpy path) | - = empty filter | n,n,… = coap_option_filter_set() calls on a cleared filter
+ *   output: [start=…] steps=… flt=<N | - | rc of each filter_set> dup=null old=<used_size>.<fnv32>
+ *         | [start=…] steps=… flt=… dup=ok old=<used_size>.<fnv32 of the ORIGINAL after the call> copy=<used_size>.<fnv32>
+ *             steps2=… hdr=… bytes=… built=… reparse=…        (of the copy)
+ */
+static coap_context_t *g_ctx;
+static coap_session_t *g_sess;
+static coap_session_t *dup_session(void) {
+  if (!g_sess) {
+    coap_address_t dst;
+    g_ctx = coap_new_context(NULL);
+    if (!g_ctx) return NULL;
+    coap_address_init(&dst);
+    dst.addr.sin.sin_family = AF_INET;
+    dst.addr.sin.sin_addr.s_addr = htonl(INADDR_LOOPBACK);
+    dst.addr.sin.sin_port = htons(5683);
+    dst.size = sizeof(struct sockaddr_in);
+    g_sess = coap_new_client_session(g_ctx, NULL, &dst, COAP_PROTO_UDP);
+  }
+  return g_sess;
+}
+
+#define MAX_FLT 64
+static void dup_and_finish(coap_proto_t p, coap_pdu_t *old, char **a) {
+  /* a[0]=smax a[1]=newmid a[2]=tok a[3]=flt a[4]=ops2 ; everything was validated by dup_args_ok() */
+  unsigned long smax, newmid, nums[MAX_FLT];
+  int nflt = 0, use_filter = strcmp(a[3], "N") != 0;
+  size_t tlen; uint8_t *tok;
+  coap_opt_filter_t drop;
+  coap_session_t *sess = dup_session();
+  coap_pdu_t *copy;
+  get_num(a[0], &smax); get_num(a[1], &newmid);
+  if (!sess) { printf(" fail"); return; }
+  tok = get_val(a[2], &tlen);
+  printf(" flt=");
+  coap_option_filter_clear(&drop);
+  if (!use_filter) fputc('N', stdout);
+  else if (!strcmp(a[3], "-")) fputc('-', stdout);
+  else {
+    char *copyf = strdup(a[3]), *sv = NULL;
+    for (char *t = strtok_r(copyf, ",", &sv); t && nflt < MAX_FLT; t = strtok_r(NULL, ",", &sv)) {
+      get_num(t, &nums[nflt]);
+      printf("%d", coap_option_filter_set(&drop, (coap_option_num_t)nums[nflt]));
+      nflt++;
+    }
+    free(copyf);
+  }
+  sess->mtu = (unsigned)(smax ? smax + COAP_PDU_MAX_UDP_HEADER_SIZE : 0);
+  sess->tx_mid = (uint16_t)(newmid - 1);
+  copy = coap_pdu_duplicate(old, sess, tlen, tok, use_filter ? &drop : NULL);
+  free(tok);
+  if (!copy) { printf(" dup=null old=%zu.%08x", old->used_size, fnv32(old->token, old->used_size)); return; }
+  printf(" dup=ok old=%zu.%08x copy=%zu.%08x ", old->used_size, fnv32(old->token, old->used_size),
+         copy->used_size, fnv32(copy->token, copy->used_size));
+  if (run_calls(copy, a[4], "steps2")) finish(p, copy);
+  coap_delete_pdu(copy);
+}
+
+static int dup_args_ok(char **a) {
+  unsigned long smax, newmid, x;
+  size_t tlen; uint8_t *tok;
+  if (!get_num(a[0], &smax) || smax > 8388864 || !get_num(a[1], &newmid) || newmid > 65535) return 0;
+  tok = get_val(a[2], &tlen);
+  if (!tok) return 0;
+  free(tok);
+  if (strcmp(a[3], "N") && strcmp(a[3], "-")) {
+    char *copyf = strdup(a[3]), *sv = NULL;
+    int n = 0, ok = a[3][0] != ',' && a[3][strlen(a[3]) - 1] != ',' && !strstr(a[3], ",,");
+    for (char *t = strtok_r(copyf, ",", &sv); t && ok; t = strtok_r(NULL, ",", &sv))
+      if (!get_num(t, &x) || x > 65535 || ++n > MAX_FLT) ok = 0;
+    free(copyf);
+    if (!ok) return 0;
+  }
+  return ops_ok(a[4]);
+}
+
+static void do_dupb(char **w) {
+  coap_proto_t p = proto_of(w[1]);
+  unsigned long ms, t, c, m;
+  coap_pdu_t *pdu;
+  if (p == COAP_PROTO_NONE || !get_num(w[2], &ms) || !get_num(w[3], &t) || !get_num(w[4], &c) || !get_num(w[5], &m) ||
+      t > 3 || c > 255 || m > 65535 || !ops_ok(w[6]) || !dup_args_ok(w + 7)) { printf("bad-op"); return; }
+  pdu = coap_pdu_init((coap_pdu_type_t)t, (coap_pdu_code_t)c, (coap_mid_t)m, ms);
+  if (!pdu) { printf("fail"); return; }
+  OUT = stdout;
+  if (run_calls(pdu, w[6], "steps")) dup_and_finish(p, pdu, w + 7);
+  coap_delete_pdu(pdu);
+}
+
+static void do_dupe(char **w) {
+  coap_proto_t p = proto_of(w[1]);
+  unsigned long ms;
+  size_t len; uint8_t *wire;
+  coap_pdu_t *pdu;
+  if (p == COAP_PROTO_NONE || !get_num(w[2], &ms) || !ops_ok(w[4]) || !dup_args_ok(w + 5)) { printf("bad-op"); return; }
+  wire = get_val(w[3], &len);
+  if (!wire) { printf("bad-op"); return; }
+  pdu = coap_pdu_init(0, 0, 0, ms);
+  if (!pdu) { printf("fail"); free(wire); return; }
+  OUT = stdout;
+  if (!parse_into(p, wire, len, pdu)) printf("rej");
+  else {
+    printf("start=%zu.%08x ", pdu->used_size, fnv32(pdu->token, pdu->used_size));
+    if (run_calls(pdu, w[4], "steps")) dup_and_finish(p, pdu, w + 5);
+  }
+  coap_delete_pdu(pdu);
+  free(wire);
+}
+
 static void step(char *line) {
-  char *w[8];
-  int n = h_words(line, w, 8);
+  char *w[14];
+  int n = h_words(line, w, 14);
   if (n == 3 && !strcmp(w[0], "parse")) {
     size_t len; uint8_t *b = h_unhex(w[2], &len);
     coap_proto_t p = proto_of(w[1]);
@@ -279,6 +412,8 @@ static void step(char *line) {
   }
   if (n == 7 && !strcmp(w[0], "build")) { do_build(w); return; }
   if (n == 5 && !strcmp(w[0], "edit")) { do_edit(w); return; }
+  if (n == 12 && !strcmp(w[0], "dupb")) { do_dupb(w); return; }
+  if (n == 10 && !strcmp(w[0], "dupe")) { do_dupe(w); return; }
   printf("bad-op");
 }
 
